@@ -375,52 +375,55 @@ func (h Header) MarshalSize() int {
 
 // SetExtension sets an RTP header extension.
 func (h *Header) SetExtension(id uint8, payload []byte) error { //nolint:gocognit, cyclop
-	if h.Extension { // nolint: nestif
-		switch h.ExtensionProfile {
-		// RFC 8285 RTP One Byte Header Extension
-		case extensionProfileOneByte:
-			if id < 1 || id > 14 {
-				return fmt.Errorf("%w actual(%d)", errRFC8285OneByteHeaderIDRange, id)
-			}
-			if len(payload) > 16 {
-				return fmt.Errorf("%w actual(%d)", errRFC8285OneByteHeaderSize, len(payload))
-			}
-		// RFC 8285 RTP Two Byte Header Extension
-		case extensionProfileTwoByte:
-			if id < 1 {
-				return fmt.Errorf("%w actual(%d)", errRFC8285TwoByteHeaderIDRange, id)
-			}
-			if len(payload) > 255 {
-				return fmt.Errorf("%w actual(%d)", errRFC8285TwoByteHeaderSize, len(payload))
-			}
-		default: // RFC3550 Extension
-			if id != 0 {
-				return fmt.Errorf("%w actual(%d)", errRFC3550HeaderIDRange, id)
-			}
+	profile := h.ExtensionProfile
+	if !h.Extension {
+		// No existing header extensions: the first payload selects the profile
+		switch payloadLen := len(payload); {
+		case payloadLen <= 16:
+			profile = extensionProfileOneByte
+		case payloadLen > 16 && payloadLen < 256:
+			profile = extensionProfileTwoByte
 		}
+	}
 
-		// Update existing if it exists else add new extension
-		for i, extension := range h.Extensions {
-			if extension.id == id {
-				h.Extensions[i].payload = payload
-
-				return nil
-			}
+	switch profile {
+	// RFC 8285 RTP One Byte Header Extension
+	case extensionProfileOneByte:
+		if id < 1 || id > 14 {
+			return fmt.Errorf("%w actual(%d)", errRFC8285OneByteHeaderIDRange, id)
 		}
+		if len(payload) > 16 {
+			return fmt.Errorf("%w actual(%d)", errRFC8285OneByteHeaderSize, len(payload))
+		}
+	// RFC 8285 RTP Two Byte Header Extension
+	case extensionProfileTwoByte:
+		if id < 1 {
+			return fmt.Errorf("%w actual(%d)", errRFC8285TwoByteHeaderIDRange, id)
+		}
+		if len(payload) > 255 {
+			return fmt.Errorf("%w actual(%d)", errRFC8285TwoByteHeaderSize, len(payload))
+		}
+	default: // RFC3550 Extension
+		if id != 0 {
+			return fmt.Errorf("%w actual(%d)", errRFC3550HeaderIDRange, id)
+		}
+	}
 
+	if !h.Extension {
+		h.Extension = true
+		h.ExtensionProfile = profile
 		h.Extensions = append(h.Extensions, Extension{id: id, payload: payload})
 
 		return nil
 	}
 
-	// No existing header extensions
-	h.Extension = true
+	// Update existing if it exists else add new extension
+	for i, extension := range h.Extensions {
+		if extension.id == id {
+			h.Extensions[i].payload = payload
 
-	switch payloadLen := len(payload); {
-	case payloadLen <= 16:
-		h.ExtensionProfile = extensionProfileOneByte
-	case payloadLen > 16 && payloadLen < 256:
-		h.ExtensionProfile = extensionProfileTwoByte
+			return nil
+		}
 	}
 
 	h.Extensions = append(h.Extensions, Extension{id: id, payload: payload})
